@@ -1076,3 +1076,123 @@ func isParamN(fn *ssa.Function, v ssa.Value, idx int) bool {
 	}
 	return n == 1 && isP
 }
+
+// condKey renders a branch condition so that two evaluations of the same test can be recognised: loads by
+// access path, comparisons by operator and operand keys, constants by value. "" if the condition is not of
+// a form that can be compared (calls, phis).
+func condKey(v ssa.Value, depth int) string {
+	if depth > 4 {
+		return ""
+	}
+	switch x := v.(type) {
+	case *ssa.Const:
+		if x.Value == nil {
+			return "nil"
+		}
+		return x.Value.ExactString()
+	case *ssa.UnOp:
+		if x.Op == token.MUL {
+			return "load:" + AccessPath(x)
+		}
+		if k := condKey(x.X, depth+1); k != "" {
+			return x.Op.String() + k
+		}
+	case *ssa.Field:
+		return "load:" + AccessPath(x)
+	case *ssa.Parameter:
+		return "param:" + x.Name()
+	case *ssa.BinOp:
+		a, b := condKey(x.X, depth+1), condKey(x.Y, depth+1)
+		if a != "" && b != "" {
+			return "(" + a + x.Op.String() + b + ")"
+		}
+	case *ssa.Convert:
+		if k := condKey(x.X, depth+1); k != "" {
+			return "conv(" + k + ")"
+		}
+	}
+	return ""
+}
+
+// guardsAtPS: guardsAt plus one level of path sensitivity at joins. For a join block J on the dominator chain
+// of b, the facts that hold on each incoming edge are computed; edges whose facts contradict what is known at b
+// (the same test with the other outcome, nothing in the function storing to what the test reads) are infeasible
+// for paths that reach b, and what all remaining edges agree on holds at b.
+//
+//	if n.Negative && n.Value > K { return err }      // join: Negative==false | Value<=K
+//	if n.Negative { … int64(n.Value) … }              // here Negative==true ⇒ Value<=K
+func guardsAtPS(b *ssa.BasicBlock) []Guard {
+	base := guardsAt(b)
+	known := map[string]bool{}
+	for _, g := range base {
+		c, br := stripNot(g.Cond, g.Branch)
+		if k := condKey(c, 0); k != "" {
+			known[k] = br
+		}
+	}
+	stored := map[string]bool{}
+	eachInstr(b.Parent(), func(in ssa.Instruction) {
+		if st, isS := in.(*ssa.Store); isS {
+			if _, isAl := st.Addr.(*ssa.Alloc); !isAl {
+				stored[AccessPath(st.Addr)] = true
+			}
+		}
+	})
+	mutable := func(k string) bool {
+		for p := range stored {
+			if strings.Contains(k, "load:"+p) {
+				return true
+			}
+		}
+		return false
+	}
+	out := base
+	for j := b; j != nil; j = j.Idom() {
+		if len(j.Preds) < 2 || isLoopHeader(j) {
+			continue
+		}
+		var common map[string]Guard
+		feasible := 0
+		for _, p := range j.Preds {
+			var facts []Guard
+			facts = append(facts, guardsAt(p)...)
+			if len(p.Instrs) > 0 {
+				if pif, isIf := p.Instrs[len(p.Instrs)-1].(*ssa.If); isIf && p.Succs[0] != p.Succs[1] {
+					facts = append(facts, Guard{Cond: pif.Cond, Branch: p.Succs[0] == j, If: pif})
+				}
+			}
+			contradicts := false
+			keyed := map[string]Guard{}
+			for _, f := range facts {
+				c, br := stripNot(f.Cond, f.Branch)
+				k := condKey(c, 0)
+				if k == "" || mutable(k) {
+					continue
+				}
+				if kb, has := known[k]; has && kb != br {
+					contradicts = true
+				}
+				keyed[fmt.Sprintf("%s=%v", k, br)] = Guard{Cond: c, Branch: br, If: f.If}
+			}
+			if contradicts {
+				continue
+			}
+			feasible++
+			if common == nil {
+				common = keyed
+			} else {
+				for k := range common {
+					if _, has := keyed[k]; !has {
+						delete(common, k)
+					}
+				}
+			}
+		}
+		if feasible > 0 && feasible < len(j.Preds) {
+			for _, g := range common {
+				out = append(out, g)
+			}
+		}
+	}
+	return out
+}
